@@ -13,6 +13,8 @@ var scripts = map[string]func(rn *Runner){
 	"fig8x":    scriptFig8x,
 	"cfgtrunc": scriptCfgTrunc,
 	"snapcfg":  scriptSnapCfg,
+	"xfervote": scriptXferVote,
+	"snapterm": scriptSnapTerm,
 }
 
 func (rn *Runner) el() time.Duration {
@@ -262,6 +264,144 @@ func scriptSnapCfg(rn *Runner) {
 			time.Sleep(rn.el() / 2)
 			c.Start(L)
 		}
+		time.Sleep(2 * rn.el())
+	}
+}
+
+// scriptXferVote: leader A can reach only C and hands leadership to it (TimeoutNow: C campaigns
+// for term T+1 with the leadership-transfer flag, which overrides "we have a leader" at the
+// voters). The other three voters lose A, elect one of themselves in the same term T+1 - and one
+// of them, D, receives C's request only after it has voted. A voter votes once per term, whatever
+// flag the request carries; if D votes again, C (with A, C, D) and the other winner both lead T+1.
+func scriptXferVote(rn *Runner) {
+	c := rn.C
+	for round := 0; round < 3; round++ {
+		A := rn.waitLeader(nil, 20)
+		if A == nil {
+			rn.note("no leader")
+			return
+		}
+		time.Sleep(2 * time.Duration(rn.Sc.P.HeartbeatMs) * time.Millisecond)
+		if A = rn.waitLeader(nil, 20); A == nil {
+			return
+		}
+		var voters []*Node
+		for _, nd := range c.Nodes {
+			if nd != A && nd.Cur() != nil && c.IsVoterNow(A, nd) {
+				voters = append(voters, nd)
+			}
+		}
+		if len(voters) < 4 {
+			rn.note("not enough voters")
+			return
+		}
+		rn.rng.Shuffle(len(voters), func(i, j int) { voters[i], voters[j] = voters[j], voters[i] })
+		C, D, rest := voters[0], voters[1], voters[2:]
+		rn.note("A=%s C=%s D=%s", A.name, C.name, D.name)
+		rn.applyBurst(A, rn.rng.Intn(3), "x")
+		time.Sleep(time.Duration(rn.Sc.P.HeartbeatMs/2) * time.Millisecond)
+		// A and C on one side; C's requests still reach D, but late
+		var pairs [][2]string
+		for _, x := range append([]*Node{D}, rest...) {
+			pairs = append(pairs, [2]string{A.name, x.name}, [2]string{x.name, A.name})
+		}
+		for _, x := range rest {
+			pairs = append(pairs, [2]string{C.name, x.name}, [2]string{x.name, C.name})
+		}
+		c.Net.CutMany(pairs)
+		late := time.Duration(rn.Sc.P.HeartbeatMs*(3+rn.rng.Intn(4))) * time.Millisecond
+		c.Net.SetLinkDelay(C.name, D.name, late)
+		if rn.rng.Intn(4) > 0 {
+			// D's log store fails meanwhile: it can vote (the vote goes to the stable store) but
+			// does not take the new leader's entries, so its log does not get ahead of C's
+			D.disk.FailAfter("store", 0)
+		}
+		rn.bg(func() { c.Transfer(13, A, C) })
+		// long enough for the others to elect and for the late request to arrive, within C's candidacy
+		time.Sleep(time.Duration(rn.Sc.P.ElectionMs) * time.Millisecond)
+		D.disk.Disarm()
+		c.Net.Heal()
+		time.Sleep(3 * rn.el())
+	}
+}
+
+func (rn *Runner) cutOff(nd *Node) {
+	rn.cutGroups(map[*Node]bool{nd: true})
+}
+
+// waitLeaderIs waits until nd reports Leader (n election timeouts at most).
+func (rn *Runner) waitLeaderIs(nd *Node, n int) bool {
+	return rn.waitLeader(map[*Node]bool{nd: true}, n) == nd
+}
+
+// scriptSnapTerm: C misses a term, catches up through InstallSnapshot, is made leader by a
+// transfer and takes a snapshot of its own before any command has gone through its FSM; X
+// missed C's election and has to be probed at prev == C's snapshot index, where the request's
+// previous term comes from C's snapshot record and not from its log.
+func scriptSnapTerm(rn *Runner) {
+	c := rn.C
+	for round := 0; round < 2; round++ {
+		L := rn.waitLeader(nil, 30)
+		if L == nil {
+			return
+		}
+		time.Sleep(rn.el())
+		if L = rn.waitLeader(nil, 30); L == nil {
+			return
+		}
+		var others []*Node
+		for _, nd := range c.Nodes {
+			if nd != L && nd.Cur() != nil {
+				others = append(others, nd)
+			}
+		}
+		if len(others) < 2 {
+			return
+		}
+		rn.rng.Shuffle(len(others), func(i, j int) { others[i], others[j] = others[j], others[i] })
+		C, F := others[0], others[1]
+		rn.note("L=%s C=%s F=%s", L.name, C.name, F.name)
+		rn.applyBurst(L, 3+rn.rng.Intn(4), "t1")
+		time.Sleep(rn.el())
+		// C misses the next term
+		rn.cutOff(C)
+		c.Transfer(13, L, F)
+		if !rn.waitLeaderIs(F, 10) {
+			rn.note("transfer to F did not happen")
+			c.Net.Heal()
+			continue
+		}
+		rn.applyBurst(F, 3+rn.rng.Intn(4), "t2")
+		time.Sleep(rn.el())
+		c.Snapshot(90, F)
+		time.Sleep(rn.el() / 2)
+		c.Net.Heal()
+		// C catches up (through InstallSnapshot when the entries it lacks are compacted away)
+		target := F.Cur().r.AppliedIndex()
+		for i := 0; i < 200; i++ {
+			if in := C.Cur(); in != nil && in.r.AppliedIndex() >= target {
+				break
+			}
+			time.Sleep(rn.el() / 10)
+		}
+		// X misses C's election
+		X := L
+		if len(others) > 2 && rn.rng.Intn(2) == 0 {
+			X = others[2]
+		}
+		rn.cutOff(X)
+		c.Transfer(13, F, C)
+		if !rn.waitLeaderIs(C, 10) {
+			rn.note("transfer to C did not happen")
+			c.Net.Heal()
+			continue
+		}
+		time.Sleep(rn.el() / 2)
+		c.Snapshot(90, C)
+		time.Sleep(rn.el() / 2)
+		c.Net.Heal()
+		time.Sleep(3 * rn.el())
+		rn.applyBurst(C, 2, "t3")
 		time.Sleep(2 * rn.el())
 	}
 }
